@@ -128,6 +128,31 @@ def gen_specs(run):
         specs.append({"id": f"c05-batch-{bi}", "group": "fm", "members": mems, "derived": derived,
                       "verifies": [base, {"mode": "VerifyOnly", "vmembers": vm2, "log": False}, {"mode": "VerifyOnly", "vmembers": vm3, "log": False}],
                       "_tags": ["base", f"batch[{pos}/{k}]: proof altered", f"batch[{pos}/{k}]: promise altered"], "_conf": [2, 1, 1, "fm"], "with_gens": False, "_batch": True})
+    # generator binding inside mixed batches: verify() takes H, Gb and the tables from particular members (the first, the largest), so a
+    # statement carrying different generators must be refused whatever its position and size (its commitments are kept unchanged)
+    shapes = [[1, 2], [2, 1], [1, 2, 1], [1, 2, 4]] if quick else [[1, 2], [2, 1], [1, 2, 1], [1, 2, 4], [4, 2, 1], [2, 2], [1, 1, 2], [2, 4, 4], [1, 4, 2]]
+    for si, shape in enumerate(shapes):
+        b, T = rng.choice([1, 2, 4]), rng.choice([1, 2, 3])
+        mems = [gen.mk_member(rng, b, mm, cap=mm, T=T) for mm in shape]
+        base_vm = [gen.vmember(mems[i], i) for i in range(len(shape))]
+        verifies, tags = [{"mode": "VerifyOnly", "vmembers": base_vm}], ["base"]
+
+        def std_stmt(i, **over):
+            st = gen.stmt_of(mems[i], **over)
+            st["commit"] = [{"open_std": c} for c in st["commit"]]
+            return {"proof": i, "stmt": st, "ctx": mems[i]["ctx"]}
+        vm = list(base_vm)
+        vm[len(shape) - 1] = std_stmt(len(shape) - 1)
+        verifies.append({"mode": "VerifyOnly", "vmembers": vm})
+        tags.append("control: same commitments given as points (must stay accepted)")
+        for i in range(len(shape)):
+            for tag, over in [("H", {"h_scale": gen.hx(2)})] + [(f"Gb{kk}", {"gb_scale": [kk, gen.hx(3)]}) for kk in sorted({0, T - 1})]:
+                vm = list(base_vm)
+                vm[i] = std_stmt(i, **over)
+                verifies.append({"mode": rng.choice(["VerifyOnly", "RecoverAndVerify"]), "vmembers": vm})
+                tags.append(f"mixed batch m={shape}: {tag} of member {i} altered")
+        specs.append({"id": f"c05-mixed-{si}", "group": "fm", "members": mems, "verifies": verifies, "_tags": tags, "_conf": [b, max(shape), T, "fm"],
+                      "with_gens": False, "_batch": True})
     return specs
 
 
@@ -154,7 +179,10 @@ def oracle(run, s, o):
             continue
         run.count(["c05", b, m, T, group, tag, res.split(":")[0]], {"bits": b, "m": m, "T": T, "group": group, "alteration": tag, "result": res[:70]})
         run.bump(tag.split("=")[-1] if "=" in tag else tag)
-        if tag.startswith("None<->0"):
+        if tag.startswith("control"):
+            if res != "ok":
+                run.violation(f"control case refused: {tag}: {res[:80]}", rpi)
+        elif tag.startswith("None<->0"):
             if res != "ok":
                 run.violation(f"replacing an absent promise by zero (or back) changed the verdict: {res[:80]}", rpi)
         elif res == "ok":
